@@ -18,9 +18,10 @@ import (
 // compiled system, keys or blueprints.
 
 type effRules struct {
-	Comment   string            `json:"comment"`
-	Allowed   map[string]string `json:"allowed"`    // abstract func | key -> reason (reviewed benign writes)
-	GuardedBy []guardedBy       `json:"guarded_by"` // package-level variable / mutex pairs
+	Comment     string            `json:"comment"`
+	Allowed     map[string]string `json:"allowed"`      // abstract func | key -> reason (reviewed benign writes)
+	GuardedBy   []guardedBy       `json:"guarded_by"`   // package-level variable / mutex pairs
+	GlobalRefOK map[string]string `json:"globalref_ok"` // abstract func | global -> reason (reviewed hand-outs of package-level containers)
 }
 
 type guardedBy struct {
@@ -452,7 +453,6 @@ func (e *effEngine) RunOptSlice(r *Report) {
 	}
 }
 
-
 // isOptionSliceParam: v derives, without a capping three-index slice in between, from a parameter of type
 // []Option / []ProverOption / ... (a slice of a named func type whose name ends in "Option").
 func isOptionSliceParam(v ssa.Value, depth int, seen map[ssa.Value]bool) (*ssa.Parameter, bool) {
@@ -804,4 +804,120 @@ func containsStatefulReset(fn *ssa.Function, depth int) bool {
 		}
 	}
 	return false
+}
+
+// ---------------------------------------------------------------------------
+// EFF-GLOBALREF: solver-time code hands out copies of package-level containers, never the containers themselves
+
+// RunGlobalRef: in the solver / prover packages, a map or slice held in a package-level variable is not returned
+// by a function nor stored into another object: whoever receives it shares it with every concurrent and later
+// call (the hint registry is cloned per solver configuration for exactly this reason).
+func (e *effEngine) RunGlobalRef(r *Report) {
+	isContainer := func(t types.Type) bool {
+		switch t.Underlying().(type) {
+		case *types.Map, *types.Slice:
+			return true
+		}
+		return false
+	}
+	var globalLoad func(v ssa.Value, d int) *ssa.Global
+	globalLoad = func(v ssa.Value, d int) *ssa.Global {
+		if d > 6 || v == nil {
+			return nil
+		}
+		switch x := v.(type) {
+		case *ssa.UnOp:
+			if x.Op == token.MUL {
+				switch a := x.X.(type) {
+				case *ssa.Global:
+					return a
+				case *ssa.FieldAddr:
+					if g, ok := a.X.(*ssa.Global); ok {
+						return g
+					}
+				case *ssa.Alloc:
+					// local cell (results are spilled when the function defers): what was stored into it
+					if refs := a.Referrers(); refs != nil {
+						for _, rf := range *refs {
+							if st, ok := rf.(*ssa.Store); ok && st.Addr == a {
+								if g := globalLoad(st.Val, d+1); g != nil {
+									return g
+								}
+							}
+						}
+					}
+				}
+			}
+		case *ssa.Phi:
+			for _, ed := range x.Edges {
+				if g := globalLoad(ed, d+1); g != nil {
+					return g
+				}
+			}
+		case *ssa.Slice:
+			return globalLoad(x.X, d+1)
+		case *ssa.ChangeType:
+			return globalLoad(x.X, d+1)
+		}
+		return nil
+	}
+	n := 0
+	for _, fn := range e.p.Funcs {
+		pk := FuncPkg(fn)
+		if pk == nil || !inModule(pk.Path()) {
+			continue
+		}
+		rel := strings.TrimPrefix(pk.Path(), modPath+"/")
+		if !(strings.HasPrefix(rel, "constraint") || strings.HasPrefix(rel, "backend")) {
+			continue
+		}
+		top := fn
+		for top.Parent() != nil {
+			top = top.Parent()
+		}
+		if top.Name() == "init" || strings.HasPrefix(top.Name(), "init#") {
+			continue
+		}
+		ord := 0
+		for _, b := range fn.Blocks {
+			for _, ins := range b.Instrs {
+				var g *ssa.Global
+				how := ""
+				switch x := ins.(type) {
+				case *ssa.Return:
+					for _, rv := range x.Results {
+						if isContainer(rv.Type()) {
+							if gg := globalLoad(rv, 0); gg != nil {
+								g, how = gg, "returned"
+							}
+						}
+					}
+				case *ssa.Store:
+					if isContainer(x.Val.Type()) {
+						if gg := globalLoad(x.Val, 0); gg != nil {
+							// storing back into a global (the same registry) is not an escape
+							if _, toGlobal := x.Addr.(*ssa.Global); !toGlobal {
+								if _, isAlloc := x.Addr.(*ssa.Alloc); !isAlloc {
+									g, how = gg, "stored into another object"
+								}
+							}
+						}
+					}
+				}
+				if g == nil {
+					continue
+				}
+				ord++
+				n++
+				gname := g.Pkg.Pkg.Path() + "." + g.Name()
+				key := fmt.Sprintf("globalref:%s#%d", gname, ord)
+				if why, ok := e.rules.GlobalRefOK[Abstract(FuncName(fn))+"|"+gname]; ok {
+					r.Pass("EFF-GLOBALREF", pk.Path(), FuncName(fn), key, e.p.Pos(ins.Pos()), "reviewed: "+why, true)
+					continue
+				}
+				r.Fail("EFF-GLOBALREF", pk.Path(), FuncName(fn), key, e.p.Pos(ins.Pos()), fmt.Sprintf("the %s held in package-level variable %s is %s itself, not a copy: every caller shares one mutable object with all concurrent and later Solve / Prove calls", strings.ToLower(fmt.Sprintf("%T", g.Type().(*types.Pointer).Elem().Underlying())[7:]), gname, how))
+			}
+		}
+	}
+	r.Pass("EFF-GLOBALREF", "-", "-", "scan", "-", fmt.Sprintf("%d hand-outs of package-level containers examined in constraint/... and backend/...", n), false)
 }
